@@ -93,6 +93,14 @@ def check(ctx, run):
         def fold_escape(chars):
             """printEscaped folded on the NUL-terminated string `chars` (signed char values): the text handed to printBuffer"""
             env = {pname: ("ptr", "S", 0)}
+            if "SimpleString" in pe.params[0]["ct"]:
+                # the text arrives as a string object: its buffer is the modelled array (member names from the class itself)
+                flds = prog.records.get("SimpleString", {}).get("fields", [])
+                bufs = [fl["name"] for fl in flds if fl.get("ct", "").replace("const ", "").strip() == "char *"]
+                sizes_ = [fl["name"] for fl in flds if fl.get("ct", "") == "unsigned long"]
+                if len(bufs) != 1 or len(sizes_) != 1:
+                    raise AnalysisBroken("C20: SimpleString no longer has one buffer pointer and one size member")
+                env = {pname + "." + bufs[0]: ("ptr", "S", 0), pname + "." + sizes_[0]: len(chars) + 1}
             for i_, c_ in enumerate(list(chars) + [0]):
                 env["S[%d]" % i_] = c_
             out, problems = [], []
@@ -118,6 +126,7 @@ def check(ctx, run):
                 return 0
             pb.wants_ev = True
             ev = Evaluator(prog, pe, env=env, calls={pc + "::printBuffer": pb for pc in PRINT_CLASSES})
+            ev.inline = {"SimpleString::asCharString", "SimpleString::getBuffer", "SimpleString::size", "SimpleString::at", "SimpleString::isEmpty"}
             ev.run_blocks(pe.entry, max_steps=20000)
             for key, v in ev.stores:
                 m = re.match(r"(\w+)\[(-?\d+)\]$", key)
@@ -253,10 +262,6 @@ def check(ctx, run):
 
     # the failure message names the open test: printFailure prints getTestNameOnly(), which every TestFailure
     # constructor must fill from the test's plain name (this is what currtest_->getName() printed at start)
-    pfn = prog.fn(CLS + "::printFailure")
-    esc = [string_print_kind(prog, pfn, c) for c in pfn.calls()]
-    esc = [k[1] for k in esc if k and k[0] == "esc"]
-    run.ob("R3", "testFailed names the test by getTestNameOnly()", pfn.site, bool(esc) and esc[0] == "failure.getTestNameOnly().asCharString()", witness=esc)
     from .shared import testfailure_ctor_table
     testfailure_ctor_table(prog, run, "R3")
     g = prog.fn("TestFailure::getTestNameOnly")
